@@ -780,3 +780,28 @@ SCENARIOS.append(Scenario("C09.rules.ExpandIdentity[any rank]", s_expand_identit
                           [("onnxscript/rewriter/rules/common/_basic_rules.py", "ExpandIdentity.check"), ("onnxscript/rewriter/rules/common/_basic_rules.py", "ExpandIdentity.rewrite")],
                           trusted=TRUST + ["ONNX Expand: output shape = broadcast(input shape, target)"],
                           assumptions=["`dims != tuple(target)` over symbolic-length sequences is used at one arbitrary (Skolem) position"]))
+
+
+def s_squeeze_reshape_anyrank(ctx):
+    """SqueezeReshape for an input of ANY rank: Reshape(Squeeze(x), [-1]) -> Identity(x) fires only if x is known to have rank 1."""
+    import onnx_ir as ir
+    from onnxscript.rewriter.rules.common import _basic_rules
+    from contracts.symshape import SymShape
+    I = Interp(ctx)
+    W = World(I)
+    known = ctx.choose(2, "the shape of x is known") == 0
+    X = SymShape(I, "x")
+    x = W.value("x", dims=None, rt=None, dtype=ir.DataType.FLOAT)
+    x.fields["shape"] = X.obj if known else None
+    rule = SObj(_basic_rules.SqueezeReshape, "rule")
+    if not I.truth(I.call(I.getattr(rule, "check"), [None, x])):
+        ctx.cover("SqueezeReshape.any_rank.check_failed")
+        return
+    ctx.cover("SqueezeReshape.any_rank.fired")
+    ctx.check("C09.rules.SqueezeReshape.any_rank.fires_only_for_a_known_rank_1_input", z3.And(z3.BoolVal(known), X.rank == 1), CL09 + " (every rank)")
+    r = I.call(I.getattr(rule, "rewrite"), [OpRecorder(), x])
+    ctx.check("C05.rules.SqueezeReshape.any_rank.replacement_is_identity_of_x", isinstance(r, Call) and r.op == "Identity" and r.args == (x,) and not r.kwargs, CL09)
+
+
+SCENARIOS.append(Scenario("C09.rules.SqueezeReshape[any rank]", s_squeeze_reshape_anyrank,
+                          [("onnxscript/rewriter/rules/common/_basic_rules.py", "SqueezeReshape.check"), ("onnxscript/rewriter/_ir_utils.py", "has_rank")], trusted=TRUST))
